@@ -17,6 +17,8 @@ type wfGen struct {
 	MaxRuns   int
 	Kinds     []int // nil = all
 	FuelMax   int
+	// FlowRetry: flows get a retry budget of 1..3 (see FlowSpec.N).
+	FlowRetry bool
 	// PreferFlows biases start nodes and connection sources towards flows used as members.
 	PreferFlows bool
 }
@@ -136,6 +138,12 @@ func (g wfGen) gen(rt *rapid.T) WF {
 				Action: rapid.SampledFrom(g.Actions).Draw(rt, "caction"),
 				To:     rapid.IntRange(-1, avail-1).Draw(rt, "to"),
 			})
+		}
+		if g.FlowRetry {
+			fs.N = rapid.IntRange(1, 3).Draw(rt, "flown")
+			if g.Waits && rapid.Bool().Draw(rt, "flowwait") {
+				fs.WaitMs = 1000
+			}
 		}
 		w.Nodes = append(w.Nodes, NodeSpec{Flow: fs})
 	}
